@@ -5,7 +5,7 @@
     specification side: TimeMgmt/TimeSpec.v. *)
 From Coq Require Import ZArith Bool List Floats.
 From Texel Require Import gen.TimeParams TimeMgmt.TimeMgmt TimeMgmt.TimeSpec TimeMgmt.FloatFacts
-  TimeMgmt.TimeProofs TimeMgmt.StopProofs.
+  TimeMgmt.HardOfProofs TimeMgmt.TimeProofs TimeMgmt.StopProofs.
 Import ListNotations.
 Local Open Scope Z_scope.
 
@@ -124,13 +124,15 @@ Theorem C06_stop_then_first_poll : forall sl tStart pre e post,
 Proof. exact stop_then_first_poll. Qed.
 Print Assumptions C06_stop_then_first_poll.
 
-(** hardFactor stays finite and within [0,4] under max(hf,1.0), max(hf,2.0) and (hf+hard)/2 as long
-    as each [hard] is within [0,4] *)
-Theorem C06_hardFactor_admissible_partial : forall hf, HfReach hf -> hf_ok hf = true.
-Proof. exact hardFactor_admissible. Qed.
-Print Assumptions C06_hardFactor_admissible_partial.
+(** the [hard] value computed from the node fraction is finite and within [0,4] for every double
+    (NaN and infinities included) *)
+Theorem C06_hardOf_range : forall f, hf_ok (hardOf f) = true.
+Proof. exact hardOf_range. Qed.
+Print Assumptions C06_hardOf_range.
 
-(** not proved: the piecewise-linear [hard] value computed from the node fraction is within [0,4]
-    for every double (its four interpolation steps need dyadic, not integer, enclosures); the
-    check samples it through the extracted model instead *)
-Definition C06_hardOf_range_statement : Prop := forall f, hf_ok (hardOf f) = true.
+(** hence hardFactor, starting at 1.0 and updated by max(hf,1.0), max(hf,2.0) and
+    (hf + hard(nodes of best move / total nodes)) / 2 in any order and for any node counts, is
+    always admissible: "every evolution of the factors" in C06_deadline is covered *)
+Theorem C06_hardFactor_admissible : forall hf, HfReach hf -> hf_ok hf = true.
+Proof. exact hardFactor_admissible. Qed.
+Print Assumptions C06_hardFactor_admissible.
